@@ -211,6 +211,16 @@ func (fr *Frame) next(st *State, in *ssa.Next) {
 	x.assumeAllocated(st, mt.Key(), k)
 	x.assumeAllocated(st, mt.Elem(), v)
 	fr.tup[in] = []string{ok, k, v}
+	// ghost element count: while the map's key set is the one the iteration started from, it produces each key once:
+	// never more elements than the map has, and exactly that many when it ends
+	ik := mapIterKey(rng)
+	cnt := x.get(st, ik)
+	_, _, md, _ := x.mapKeys(mt)
+	same := eq(sx("select", x.get(st, md), m), fr.rangeDom[rng])
+	ln := x.mapLen(st, m)
+	c.assume(implies(and(st.Reach, same, ok), x.ltIdx(cnt, ln)))
+	c.assume(implies(and(st.Reach, same, not(ok)), eq(cnt, ln)))
+	x.set(st, ik, ite(ok, x.addIdx(cnt, c.idx(1)), cnt))
 }
 
 func (x *Exec) assumeAllocatedDeep(st *State, t types.Type, v string) {
